@@ -31,10 +31,12 @@ ASSUMPTIONS = ["must-be-errored is demanded only for responses that violate the 
 PROBES = ["server_wsgi", "server_bare", "client_mode", "truncated_fin", "truncated_rst", "sibling_completed", "errored_response_reported",
           "redirect_without_location", "chunk_size_mutation", "absolute_url_mutation", "long_line", "random_bytes", "valid_message_mutated"]
 BOUNDS = dict(quick=dict(byz_connections=3), thorough=dict(byz_connections=4))
-TIERS = dict(quick=dict(cases=3000, wall=45.0), thorough=dict(cases=200000, wall=420.0))
+TIERS = dict(quick=dict(cases=20000, wall=45.0), thorough=dict(cases=200000, wall=420.0))
 SIM_TIME_UNIT = "net steps"
 
-CHUNK_SIZES = [b"zz", b"-5", b"+5", b"0x10", b"1_0", b"\xff\xfe", b"", b" ", b"ffffffffffffffffffff", b"5 5", b"g", b"3;ext=1", b"3 ; a", b"-0"]
+CHUNK_SIZES = [b"zz", b"-5", b"+5", b"0x10", b"1_0", b"\xff\xfe", b"", b" ", b"ffffffffffffffffffff", b"5 5", b"g", b"3;ext=1", b"3 ; a", b"-0",
+               # bytes that decode (iso-8859-1) to characters Python's str/int treat as digits or white space
+               b"\xb2", b"1\xb9", b"\xa03", b"3\x85", b"\xbd"]
 
 
 def mutate_bytes(tape, data):
@@ -48,7 +50,7 @@ def mutate_bytes(tape, data):
         if op == 0:
             data[i] ^= 1 + tape.draw("mut_xor", 255)
         elif op == 1:
-            data.insert(i, tape.pick("mut_ins", [0x0d, 0x0a, 0x3a, 0x20, 0x3b, 0x00, 0xff, 0x30, 0x2d]))
+            data.insert(i, tape.pick("mut_ins", [0x0d, 0x0a, 0x3a, 0x20, 0x3b, 0x00, 0xff, 0x30, 0x2d, 0xb2, 0xb9, 0xa0, 0x85, 0x1c, 0x0b, 0x0c]))
         elif op == 2:
             del data[i]
         else:
@@ -73,7 +75,7 @@ def byz_request(tape):
         return b"POST /c HTTP/1.1\r\nHost: x\r\nTransfer-Encoding: chunked\r\n\r\n3\r\nabc" + end + b"0\r\n\r\n", "chunk-end"
     if k == 3:
         url = tape.pick("url", [b"http://h:99999/", b"http://h:abc/", b"http://[::1/", b"//[/", b"http://h:-1/", b"http://h:/x",
-                                b"https://[v1.x]/", b"http://h:65536/y"])
+                                b"https://[v1.x]/", b"http://h:65536/y", b"http://h:8\xb2/", b"http://h:\xa080/", b"http://h\x85:80/"])
         return b"GET " + url + b" HTTP/1.1\r\nHost: h\r\n\r\n", "absolute-url"
     if k == 4:
         which = tape.draw("long_where", 3)
@@ -92,7 +94,7 @@ def byz_request(tape):
         ct = tape.pick("ct", [b"", b"Content-Type: application/json\r\n", b"Content-Type: text/plain; charset=utf-8\r\n"])
         return b"POST /b HTTP/1.1\r\nHost: x\r\n" + ct + b"Content-Length: %d\r\n\r\n" % len(body) + body, "bad-body"
     if k == 7:
-        cl = tape.pick("cl", [b"-1", b"abc", b"99999", b"1e3", b"", b"4, 4", b"+4"])
+        cl = tape.pick("cl", [b"-1", b"abc", b"99999", b"1e3", b"", b"4, 4", b"+4", b"\xb2", b"\xa04", b"4\x85", b"\xb9\xb2"])
         return b"POST /l HTTP/1.1\r\nHost: x\r\nContent-Length: " + cl + b"\r\n\r\nbody", "content-length"
     if k == 8:
         return b"POST /e HTTP/1.1\r\nHost: x\r\nExpect: 100-continue\r\nContent-Length: 3\r\n\r\nabc", "expect-continue"
@@ -119,8 +121,8 @@ def byz_response(tape, port2):
         return b"HTTP/1.1 200 OK\r\n" + h + b"\r\n\r\nok", "header-colon", h == b"NoColonHere"
     if k == 1:
         line = tape.pick("status", [b"FOO/1.1 200 OK", b"HTTP/1.1 abc OK", b"HTTP/1.1 99 x", b"HTTP/1.1 1000 x", b"HTTP/3.0 200 OK", b"", b"HTTP/1.1",
-                                    b"200 OK", b"\x00\x01"])
-        return line + b"\r\nContent-Length: 0\r\n\r\n", "status-line", line not in (b"",)
+                                    b"200 OK", b"\x00\x01", b"HTTP/1.1 2\xb20 OK", b"HTTP/1.1 \xb2\xb3\xb9 OK", b"HTTP/1.1 20\xbd OK", b"HTTP/1.1 \xa0200 OK"])
+        return line + b"\r\nContent-Length: 0\r\n\r\n", "status-line", line not in (b"", b"HTTP/1.1 \xa0200 OK")   # NBSP is white space to str.split(): lenient, not wrong
     if k == 2:
         size = tape.pick("csize", CHUNK_SIZES)
         bad = size not in (b"3;ext=1", b"3 ; a")
@@ -145,7 +147,7 @@ def byz_response(tape, port2):
         ev = tape.pick("sse", [b"data: \xff\xfe\n\n", b"\xff: x\n\n", b"id: \xc3\x28\ndata: x\n\n", b"retry: 1\xff\n\n"])
         return b"HTTP/1.1 200 OK\r\nContent-Type: text/event-stream\r\nTransfer-Encoding: chunked\r\n\r\n%x\r\n" % len(ev) + ev + b"\r\n0\r\n\r\n", "sse-bytes", False
     if k == 9:
-        cl = tape.pick("cl", [b"-1", b"abc", b"+2", b"2, 2"])
+        cl = tape.pick("cl", [b"-1", b"abc", b"+2", b"2, 2", b"\xb2", b"\xa02", b"2\x85"])
         return b"HTTP/1.1 200 OK\r\nContent-Length: " + cl + b"\r\nConnection: close\r\n\r\nok", "content-length", False
     if k == 10:
         return b"HTTP/1.1 200 OK\r\nContent-Type: application/json\r\nContent-Length: 4\r\n\r\n\xff\xfe{]", "bad-json", False
@@ -366,8 +368,11 @@ def client_case(tape, tier, res):
                 st.setdefault("queue", []).extend(p["frags"])
                 st["end"] = p["end"]
             q = st.get("queue")
-            if q and not c["out"] and tape.flag("send_now", 2, 3):
+            if q and not c["out"] and (draining[0] or tape.flag("send_now", 2, 3)):
                 c["out"].extend(q.pop(0))
+            if served[0] >= 1 and not q and not c["out"] and st.get("first_sent") is None:
+                st["first_sent"] = True
+                first_sent[0] = True
             if q is not None and not q and not c["out"] and st.get("end") in ("fin", "rst"):
                 if st["end"] == "fin":
                     c["fin"] = True
@@ -375,7 +380,11 @@ def client_case(tape, tier, res):
                     c["rst"] = True
                 st["end"] = "done"
         maxsteps = 60 + 12 * sum(len(p["frags"]) for p in plan)
-        for steps in range(maxsteps):
+        draining = [False]
+        first_sent = [False]    # every fragment of the first planned response was handed to the kernel
+        for steps in range(maxsteps + 40):
+            if steps == maxsteps:
+                draining[0] = True     # bounded liveness: from here on the peer sends whatever it still holds at once
             res.steps += 1
             net.current_owner = "client0"
             try:
@@ -395,7 +404,7 @@ def client_case(tape, tier, res):
             # first planned response that must be reported as errored
             resp = list(client.responses)
             res.comparisons += 1
-            if plan and plan[0]["must"] and served[0] >= 1:
+            if plan and plan[0]["must"] and served[0] >= 1 and first_sent[0]:
                 if not resp:
                     res.violate("client-error-not-reported", "response kind %s is malformed but nothing was put into client.responses" % plan[0]["tag"])
                 elif not resp[0]["errored"]:
